@@ -190,9 +190,9 @@ def materialise(scn, d, scheme='structural', name_tables=False):
     if name_tables:
         tree['name_mapper'] = {
             # taxonomies with an odd number of leaves store their aliases as JSON numbers (the way cluster_alias is typed
-            # in the ABC atlas tables), the others as text
+            # in the ABC atlas tables) counted from 0, the others as text
             nm.level(l): {nm.node(l, n): {'name': f'nm{l} "{nm.node(l, n)}", x',
-                                          'alias': (int(f'{l}{n}') if len(tj['nodes'][-1]) % 2 else f'a{l}{n}')}
+                                          'alias': (n - 1 if len(tj['nodes'][-1]) % 2 else f'a{l}{n}')}
                           for n in tj['nodes'][i]} for i, l in enumerate(tj['hier'])}
         tree['hierarchy_mapper'] = {nm.level(l): f'H{l}' for l in tj['hier']}
     G = scn['G']
@@ -308,12 +308,45 @@ def run_scenario(scn, workdir, scheme='structural', name_tables=False, plan=None
         # no scratch directory configured: the result buffer is created in extended_result_dir
         conf['tmp_dir'] = None
         conf['extended_result_dir'] = str(d / 'out')
+    if damage == 'odd_spelling':
+        # the same files, spelled the way gluing '<dir>/' and '/sub/file' spells them ('//', '/./')
+        def _odd(p):
+            parent, base = os.path.split(str(p))
+            pp, pb = os.path.split(parent)
+            return pp + '//' + pb + '/./' + base
+        for k in ('query_path', 'extended_result_path', 'csv_result_path', 'hdf5_result_path', 'log_path'):
+            if conf.get(k):
+                conf[k] = _odd(conf[k])
+        conf['precomputed_stats']['path'] = _odd(conf['precomputed_stats']['path'])
+        conf['query_markers']['serialized_lookup'] = _odd(conf['query_markers']['serialized_lookup'])
+    toplevel = None
+    if damage in ('toplevel', 'toplevel_missing_query'):
+        # a container layout: results written straight below a top-level directory, which is also the scratch space
+        import uuid
+        toplevel = f'/tmp/ctmv_{uuid.uuid4().hex}'
+        std = {'extended_result_path': 'res.json', 'csv_result_path': 'res.csv', 'hdf5_result_path': 'res.h5',
+               'log_path': 'log.txt'}
+        for k, nm in std.items():
+            conf[k] = f'{toplevel}_{nm}'
+        conf['tmp_dir'] = '/tmp'
+        (d / 'toplevel_tag.txt').write_text(toplevel)
+        if damage == 'toplevel_missing_query':
+            conf['query_path'] = f'{toplevel}_query_not_there.h5ad'
     if damage == 'missing_query':
         os.unlink(conf['query_path'])
     elif damage == 'corrupt_query':
         with open(conf['query_path'], 'wb') as f:
             f.write(b'this is not an hdf5 file')
     r = run_mapping(conf, trace_dir=d / 'trace', plan=plan)
+    if toplevel is not None:
+        # bring the outputs to where every other run has them (the scanner is told the tag); nothing stays in /tmp
+        import glob
+        for k, nm in std.items():
+            if os.path.exists(conf[k]):
+                shutil.move(conf[k], str(d / 'out' / nm))
+            conf[k] = str(d / 'out' / nm)
+        for left in glob.glob(toplevel + '*'):
+            os.unlink(left)
     r['conf'] = conf
     r['dir'] = str(d)
     r['scheme'] = scheme
